@@ -258,6 +258,7 @@ type caller struct {
 	// caller, not shared: shared harness state would need synchronisation, and
 	// that would create happens-before edges between tasks.
 	retained int
+	buf      []byte // the caller's own reusable serialisation buffer (Op.Reuse)
 }
 
 const retainCap = 24 << 20
@@ -494,17 +495,35 @@ func (x *caller) dispatch(op *Op, depth int, c *canon, res *OpResult) {
 		b, err := o.MarshalJSON()
 		c.Str(string(b))
 		c.B(err == nil)
-		x.keepBytes(res, b)
+		if op.Scribble {
+			for i := range b {
+				b[i] = '#'
+			}
+		} else {
+			x.keepBytes(res, b)
+		}
 	case "AppendJSON":
 		capn := op.Cap
 		if capn < len(op.Prefix) {
 			capn = len(op.Prefix)
 		}
+		if op.Reuse {
+			out := o.AppendJSON(x.buf[:0])
+			c.Str(string(out))
+			x.buf = out
+			return
+		}
 		dst := make([]byte, len(op.Prefix), capn)
 		copy(dst, op.Prefix)
 		out := o.AppendJSON(dst)
 		c.Str(string(out))
-		x.keepBytes(res, out)
+		if op.Scribble {
+			for i := range out {
+				out[i] = '#'
+			}
+		} else {
+			x.keepBytes(res, out)
+		}
 	case "Contains":
 		c.B(o.Contains(needArg()))
 	case "Within":
